@@ -86,3 +86,58 @@ PROPS["C06"] = dict(
     assumptions=["count <= 2^28 (the code's own assert; guaranteed for parsed blocks by the allocation cap)"],
     gen_items=[],
 )
+
+PROPS["C03"] = dict(
+    level="proof",
+    technique="Lean 4 theorems relating the codec model to an independent by-the-book layout spec (Spec/Wire.lean: flat concatenations from Monero's headers) over abstract descriptions; three-way differential check lib bytes vs spec bytes vs model bytes on descriptions printed from the public struct fields",
+    level_text="C03_enc_eq_spec proves for EVERY description (both versions, coinbase/key inputs, plain/tagged outputs, any counts and ring size, all seven RingCT types, arbitrary contents) that the model encoder applied to the Rust-shaped value equals the spec bytes; C03_dec_spec that parsing the spec bytes yields exactly that value (on wfTx of C02); same for blocks. Spec/Wire mentions neither the model nor Gen, so a symmetric edit of the library (tag, count width, field order, matrix dimension on both sides) keeps C01/C02 true and breaks this check. The real serialiser is compared byte-for-byte with the spec on ~800 (quick) / ~7000 (thorough) descriptions.",
+    level_note=_CODEC_NOTE + " Spec/Wire.lean is my transcription of cryptonote_basic.h / rctTypes.h (no reference implementation is available offline); cross-checked against the mainnet vectors in the suite through the model. Known finding: BulletproofPlus count 128..255 (one raw byte vs Monero's varint).",
+    design_ref="DESIGN.md §6 C03, Appendix A",
+    rule="type-directed descriptions cycling through all 7 RingCT types, both versions, coinbase and key inputs, ring sizes 1..20, 0..20 inputs/outputs (some with hundreds of outputs), blocks with 0..hundreds of hashes.",
+    assumptions=["Spec/Wire.lean is the Monero layout", "C03_dec_spec takes well-formedness in the form wfTx (build d) (C02's predicate)"],
+    gen_items=["CAP"],
+)
+
+PROPS["C05"] = dict(
+    level="proof",
+    technique="Lean 4 theorems: for a strictly parsed transaction the model of Transaction::hash equals the Monero three-hash formula over byte ranges of the received bytes (consequence of C01 soundness + a lemma on the decoder's output shape), H abstract; differential ids with the reference Keccak",
+    level_text="C05_prefix_hash, C05_id_v1, C05_id_rct prove (for any hash function H, any byte string b that parses strictly, any RingCT type) prefix_hash = H(b[0..p]) and id = H(b) for v1, id = H(H(b[0..p]) ‖ H(b[p..q]) ‖ (Null ? 0^32 : H(b[q..]))) otherwise, with p, q the format's boundaries; parsed_shape shows the hard-coded 'empty prunable' constant (regenerated from source) is unreachable for parsed transactions. The library's ids are compared with model and formula (reference Keccak) on generated transactions of every type and on mutated encodings that still parse.",
+    level_note=_CODEC_NOTE + " Keccak-256 = tiny-keccak is C17's subject; ids are compared using the Lean reference Keccak. Excluded point (version != 1, no inputs: no RingCT type exists) is stated (C05_no_inputs) and recorded in DESIGN.md §8.",
+    design_ref="DESIGN.md §6 C05",
+    rule="generated transactions (all types, both versions) and their mutations that still parse.",
+    assumptions=["boundaries p, q on the spec side are taken from the model's parse (their by-the-book counterpart is C03's three-part spec)"],
+    gen_items=["emptyPrunableHash"],
+)
+
+PROPS["C12"] = dict(
+    level="proof",
+    technique="Lean 4 theorems about a model of Address::{from_bytes, as_bytes, Display, FromStr, hex, consensus} over generated tag tables, for every checksum function H and key-validity predicate; full proof that Monero base58 (model of the crate's control flow = reference) is a bijection between byte strings and accepted texts; differential check incl. every single-field corruption",
+    level_text="C12_bytes_iff: from_bytes b = some a <-> WF a and as_bytes a = b (canonical blob, exact lengths 69/77); C12_b58_dec_enc / C12_b58_enc_dec: base58 decode/encode are mutually inverse and only canonical text is accepted; C12_str_roundtrip / C12_str_canonical, consensus and hex forms, and each rejection class (unknown tag, checksum, invalid key, short, trailing) as corollaries; C12_parse_is_monero: the model parser equals the hand-written spec parser on every input. Real code vs model vs spec on ~11k (quick) cases incl. all 256 tag values, corrupted keys/checksums, truncations, extensions, alphabet/non-alphabet strings, overflowing blocks.",
+    level_note="Trusted: Lean kernel; model of base58-monero 2.1.0 and hex 0.4.3 control flow tied to the crates differentially; H = Keccak (C17) and key validity (C13) are parameters of the theorems and reference implementations in the driver. The pinned tree accepted trailing bytes: repaired by the fix commit recorded in known_findings.json.",
+    design_ref="DESIGN.md §6 C12",
+    rule="3 networks x 3 types x random valid keys / payment ids both directions; every single-field corruption of ~50 addresses; random and adversarial base58 / hex strings.",
+    assumptions=["checksum hash returns at least 4 bytes (true for Keccak-256)"],
+    gen_items=["network.", "address.from_slice", "CAP"],
+)
+
+PROPS["C15"] = dict(
+    level="proof",
+    technique="Lean 4 theorems: byte-level model of parse_signed_to_piconero / from_str_in / fmt_piconero_in (denomination tables generated from source) proved equal to an exact-decimal spec for every byte string and denomination; round-trip theorems; grammar-directed + junk differential check",
+    level_text="C15_parse_iff: for every byte string, denomination and signedness the model parser returns r iff the exact-decimal spec does (grammar -?D*(.D*)?, at most `decimals` fraction digits, <= 50 bytes, |r| <= 2^63-1, unsigned refuses '-'); C15_never_wraps / C15_overflow_iff: no intermediate wrap; C15_fmt_exact: exact expansion with the fixed number of decimals incl. i64::MIN; C15_parse_fmt(_suffix): parse(format a) = a with and without suffix; C15_precision_table ties everything to the regenerated precision table. Real code vs model vs spec on ~330k (quick) operations.",
+    level_note="Trusted: Lean kernel; model/Rust correspondence differential; Rust's u64 Display assumed canonical decimal (validated by the format ops); chars()-vs-bytes argument for valid UTF-8 documented in Model/AmountText.lean. Reading decisions (\".\" = 0, \"-0\" negative for unsigned) in DESIGN.md §8.",
+    design_ref="DESIGN.md §6 C15",
+    rule="grammar-directed literals (digit counts 0..50, point at every position, magnitudes around 2^63/2^64, 12/13 decimals, signs) + junk stream (other ASCII, multi-byte UTF-8, two dots, inner signs, spaces) x 5 denominations x {unsigned, signed}; formatting on boundary and random values.",
+    assumptions=["permissive grammar reading of DESIGN.md §8"],
+    gen_items=["amount.precision", "amount.denom_display", "amount.denom_fromstr"],
+)
+
+PROPS["C16"] = dict(
+    level="proof",
+    technique="Lean 4 theorems about a cursor-tracking model of SubField decode/encode and the ExtraField::try_parse loop (resynchronisation after a failed sub-field modelled exactly); round-trip, totality (strict decrease of remaining input), ok-iff-clean-chain; differential check incl. salvaged fields",
+    level_text="C16_roundtrip: every well-formed sub-field sequence (short padding only last, 255-padding anywhere, valid keys, sizes within the cap) serialises to raw bytes that try_parse returns unchanged with success; C16_single_strict; C16_first_keys (accessors = first matching sub-field); C16_total: every sub-field read on non-empty input consumes at least one byte, so the loop terminates for every input (fuel |e| always suffices); C16_ok_iff_no_resync; C16_never_fails_tx: the enclosing prefix decode does not look at the extra's content. Model = library on ~11k (quick) generated, mutated and random extras including the full salvaged list after resynchronisation.",
+    level_note="Trusted: Lean kernel; model/Rust correspondence differential; public-key validity is a parameter of the theorems (reference Ed25519 acceptance in the driver, C13).",
+    design_ref="DESIGN.md §6 C16",
+    rule="generated sequences (every padding size, blob lengths across varint boundaries, 0..129 additional keys incl. invalid ones, merge-mining depths of every width), six mutation kinds, declared lengths around the cap, tag-rich random bytes.",
+    assumptions=[],
+    gen_items=["CAP"],
+)
